@@ -80,12 +80,13 @@ Grant(t) ==
          done == s1.stack = <<>> /\ s1.fault = ""
          t1 == [stack |-> s1.stack, vs |-> s1.vs,
                 pc |-> IF done THEN thr[t].pc + 1 ELSE thr[t].pc,
-                rets |-> IF done THEN Append(thr[t].rets, s1.ret) ELSE thr[t].rets]
+                rets |-> IF done THEN Append(thr[t].rets, IF s1.ret = <<"noop">> THEN U ELSE s1.ret) ELSE thr[t].rets]
      IN /\ (switch => pre < PreemptBound)
         /\ pre' = IF switch THEN pre + 1 ELSE pre
         (* the return of an unsubscribe() is a point in the common event order (property C02) *)
         /\ st' = [s1 EXCEPT !.stack = <<>>, !.vs = <<>>,
-                            !.log = IF done /\ C.threads[t][thr[t].pc].k = "unsub"
+                            !.ret = U,
+                            !.log = IF done /\ C.threads[t][thr[t].pc].k = "unsub" /\ s1.ret # <<"noop">>
                                     THEN Append(@, LogEntry(0, "U", I(C.threads[t][thr[t].pc].a), t)) ELSE @]
         /\ thr' = [thr EXCEPT ![t] = t1]
         /\ last' = t
@@ -121,7 +122,7 @@ ConcBad ==
 EmitLine ==
   Maximal =>
     PrintT(ToJson([c |-> case, sched |-> sched, bad |-> ConcBad, stuck |-> Stuck, fault |-> st.fault,
-                   overlap |-> st.overlap, log |-> st.log, cnt |-> st.cnt, pcre |-> st.pcre,
+                   overlap |-> st.overlap, log |-> st.log, cnt |-> st.cnt, pcre |-> st.pcre, hcre |-> st.hcre, tcre |-> st.tcre,
                    rets |-> [t \in 1..NT |-> thr[t].rets]]))
 
 NoSpecFault == st.fault = "" \/ st.fault = "reentry"
